@@ -34,7 +34,7 @@ ASSUMPTIONS = [
 
 
 def opts() -> mmgen.Opts:
-    return mmgen.Opts(max_classes=5, max_props=3, max_cps=3, invariants="schema", docs="none", p_diamond=0.4,
+    return mmgen.Opts(max_classes=6, max_props=3, max_cps=3, invariants="schema", docs="none", p_diamond=0.7,
                       guard_other=0.15, max_consts=4)
 
 
